@@ -2,6 +2,9 @@ module verif/harness
 
 go 1.16
 
-require github.com/M2MGateway/go-smpp v0.0.0
+require (
+	github.com/M2MGateway/go-smpp v0.0.0
+	golang.org/x/text v0.3.6
+)
 
 replace github.com/M2MGateway/go-smpp => /repo
